@@ -21,22 +21,36 @@ AMP = "protocols/amp.py"
 BASIC = "protocols/basic.py"
 QA = "twisted.protocols.amp"
 QB = "twisted.protocols.basic"
-TECHNIQUE = "interpretation of writer, reader and codecs on finite inputs against independent oracles"
+TECHNIQUE = "guard dominance with linear normal forms, emission order, table agreement; interpreted round trips as bounded layer"
 EXPLANATION = (
-    "The repository's methods are interpreted (whitelisted AST interpreter, twisted is never imported) and their OUTPUTS are compared with "
-    "oracles written in the checker, so the verdict does not depend on how the code is spelled. "
-    "Writer: AmpBox.serialize on sample boxes must produce len16(k) k len16(v) v ... plus one empty string (parsed back by an independent parser), accept "
-    "255-byte keys and 65535-byte values, raise for longer ones and for int/bool/None/float/tuple/list/dict/str keys or values, and never rebind "
-    "(coerce) the pair it is about to write; the empty key is not refused (known finding F30). "
-    "Reader: BinaryBoxProtocol (dataReceived -> Int16StringReceiver -> StatefulStringProtocol -> proto_*) is fed the oracle encoding of several boxes "
-    "cut at every byte boundary, byte by byte and at pairs of cuts, and must deliver equal boxes each time; a 255-byte key and a 65535-byte value "
-    "are accepted, a 256-byte key (also as the second key of a box) disconnects without delivering; sender and receiver limits agree with the "
-    "16-bit prefix. "
-    "Arguments: every Argument subclass pairs toString/fromString (and the Proto/Box variants); Integer, String, Unicode, Boolean, Float, Decimal, "
-    "DateTime (18 UTC offsets, sub-hour ones included, full field range), ListOf (empty elements in every position, nested), AmpList and the "
-    "toBox/fromBox key mapping (dashes, Python keywords, optional arguments) are round-tripped through the interpreted code. "
-    "Not decided: Path (needs FilePath), Descriptor, TLS and protocol switching."
+    'STRUCTURAL (for every input): in AmpBox.serialize (helpers inlined, temporaries substituted) each pair is emitted as '
+    "len16(key) key len16(value) value in the reader's struct format, the writes of key and value are dominated by guards "
+    'whose linear normal form is exactly len <= 255 / len <= 65535, and the pair is never rebound (coerced) before it is '
+    'written; sender and receiver limit constants agree with each other and with the 16-bit prefix; proto_key/proto_value '
+    "cannot enter the next state without setting MAX_LENGTH to that state's limit; the three comparisons by which "
+    'IntNStringReceiver.dataReceived cuts the stream are in exact normal form (either polarity) and prefix/payload slices '
+    "are contiguous; every Argument subclass pairs its two directions; ListOf's prefix format and DateTime's %-format vs "
+    'slice table agree. A structural rule that cannot recognise a shape abstains with a note. BOUNDED second layer '
+    '(interpreted code, verdict about the listed inputs): serialize outputs parsed back by an independent parser, 255/256 '
+    'and 65535/65536-byte items, non-bytes keys/values refused, the empty key (known finding F30 - bounded evidence: the '
+    'statement needs a refusal, which no dominating guard provides); the reader pipeline fed a multi-box stream at every '
+    'cut, byte by byte and at pairs of cuts, key limit in force as first and second key; value round trips of Integer, '
+    'String, Unicode, Boolean, Float, Decimal, DateTime (18 UTC offsets), ListOf (empty elements everywhere, nested), '
+    'AmpList and the toBox/fromBox key mapping. Bounded evidence only: value equality of the argument codecs and '
+    'split-invariance of whole boxes (they are statements about computed values, no shape rule decides them). Not decided: '
+    'Path, Descriptor, TLS and protocol switching.'
 )
+RULE_KINDS = {
+    # structural: dominance + linear normal forms, symbolic emission order, table agreement, who-writes
+    "box/length-prefix-width": "structural", "box/guards-dominate-writes": "structural", "box/no-coercion": "structural", "limits/": "structural", "framing/prefix": "structural",
+    "framing/boundary-normal-form": "structural", "framing/slices-contiguous": "structural", "reader/class-shape": "structural", "reader/limit-toggle": "structural",
+    "argument/pairing": "structural", "argument/list-prefix-table": "structural", "datetime/layout-table": "structural",
+    # bounded: the code interpreted on enumerated inputs / stream segmentations
+    "box/wire-form": "bounded", "box/key-length-upper-bound": "bounded", "box/value-length-upper-bound": "bounded", "box/refuses-non-bytes-evaluated": "bounded",
+    "box/key-length-lower-bound": "bounded", "reader/boxes-parsed-back": "bounded", "reader/split-invariance": "bounded", "reader/limits": "bounded",
+    "argument/value-round-trip": "bounded", "datetime/round-trip": "bounded", "argument/list-round-trip": "bounded", "argument/list-framing": "bounded",
+    "argument/box-round-trip": "bounded", "C16:": "bounded",
+}
 ASSUMPTIONS = [
     "struct, str/bytes/int/float, decimal and datetime behave as in CPython 3.12 (they are used by the interpreter, not modelled)",
     "twisted.python.compat.nativeString(bytes) is bytes.decode('ascii'); FixedOffsetTimeZone.fromSignHoursMinutes(sign, h, m) is a fixed offset of "
@@ -415,10 +429,290 @@ def check_boxes_of_arguments(ctx, mod, consts):
         ctx.check(ok, "argument/box-round-trip", f"{QA}.AmpList | {len(v)} boxes", f"AmpList: {v!r} is encoded as {wire!r} ({k1}; oracle {want!r}) and decoded as {back!r}")
 
 
+# ---- structural layer: for-all-inputs verdicts on the normalised code ---------------------------------------------------
+# (private helpers inlined, single-assignment temporaries substituted, guards read through CFG dominance so that guard clauses,
+#  inverted tests and flipped comparisons are the same thing)
+
+def _struct_serialize(ctx, mod, consts):
+    from sa.astx import call_name, lincmp, statements, walk_local
+    from sa.props._lib_d import Inliner
+    from sa.props._lib_g import expand, fmt_lin, lin_expect, single_defs
+    q = QA + ".AmpBox.serialize"
+    f = Inliner(mod, ["AmpBox"], ["serialize", "__init__", "copy", "_sendTo"]).view(ctx.func(AMP, "AmpBox.serialize"))
+    g = ctx.cfg(f)
+    defs = single_defs(f)
+    rets = [st for st in statements(f) if isinstance(st, ast.Return) and isinstance(st.value, ast.Call) and isinstance(st.value.func, ast.Attribute) and st.value.func.attr == "join"
+            and st.value.args and isinstance(st.value.args[0], ast.Name)]
+    loops = [st for st in f.body if isinstance(st, ast.For) and isinstance(st.target, ast.Tuple) and len(st.target.elts) == 2 and all(isinstance(e, ast.Name) for e in st.target.elts)]
+    if len(rets) != 1 or len(loops) != 1:
+        ctx.note("box/length-prefix-width, box/guards-dominate-writes: serialize is not `for k, v in ...: <emit> ... return b''.join(<list>)`; clauses left to box/wire-form and "
+                 "box/*-upper-bound (bounded)")
+        return
+    acc = rets[0].value.args[0].id
+    loop = loops[0]
+    kn, vn = loop.target.elts[0].id, loop.target.elts[1].id
+    aliases = {st.targets[0].id for st in statements(f) if isinstance(st, ast.Assign) and len(st.targets) == 1 and isinstance(st.targets[0], ast.Name)
+               and isinstance(st.value, ast.Attribute) and st.value.attr == "append" and src(st.value.value) == acc}
+    fmt = "!H"
+
+    def emits_of(st, mapping):
+        """[(expression, statement)] emitted by one simple statement, None if it touches the accumulator in an unknown way"""
+        if isinstance(st, ast.Expr) and isinstance(st.value, ast.Call):
+            c = st.value
+            if (isinstance(c.func, ast.Name) and c.func.id in aliases) or (isinstance(c.func, ast.Attribute) and c.func.attr == "append" and src(c.func.value) == acc):
+                return [(c.args[0], st)] if len(c.args) == 1 else None
+            if isinstance(c.func, ast.Attribute) and c.func.attr == "extend" and src(c.func.value) == acc and len(c.args) == 1 and isinstance(c.args[0], (ast.Tuple, ast.List)):
+                return [(e, st) for e in c.args[0].elts]
+        if isinstance(st, ast.AugAssign) and isinstance(st.target, ast.Name) and st.target.id == acc and isinstance(st.value, (ast.Tuple, ast.List)):
+            return [(e, st) for e in st.value.elts]
+        if any(isinstance(x, ast.Name) and x.id in aliases | {acc} for x in ast.walk(st)):
+            return None
+        return []
+
+    items = []          # (kind, subject, stmt)
+    unknown = False
+
+    def walk(stmts, mapping):
+        nonlocal unknown
+        for st in stmts:
+            if isinstance(st, ast.For) and isinstance(st.target, ast.Name) and isinstance(st.iter, (ast.Tuple, ast.List)) and all(isinstance(e, ast.Name) for e in st.iter.elts):
+                for e in st.iter.elts:
+                    walk(st.body, dict(mapping, **{st.target.id: mapping.get(e.id, e.id)}))
+                continue
+            if isinstance(st, ast.If):
+                if any(emits_of(x, mapping) != [] for x in ast.walk(st) if isinstance(x, ast.stmt) and not isinstance(x, ast.If)):
+                    unknown = True
+                continue
+            es = emits_of(st, mapping)
+            if es is None:
+                unknown = True
+                continue
+            for e, where in es:
+                e2 = expand(e, defs)
+                for x in ast.walk(e2):
+                    if isinstance(x, ast.Name) and x.id in mapping:
+                        x.id = mapping[x.id]
+                if isinstance(e2, ast.Call) and call_name(e2) in ("pack", "struct.pack") and len(e2.args) == 2 and isinstance(e2.args[0], ast.Constant) \
+                        and isinstance(e2.args[1], ast.Call) and call_name(e2.args[1]) == "len" and isinstance(e2.args[1].args[0], ast.Name):
+                    items.append(("len", e2.args[0].value, e2.args[1].args[0].id, where))
+                elif isinstance(e2, ast.Name):
+                    items.append(("raw", None, e2.id, where))
+                else:
+                    items.append(("?", None, src(e2), where))
+                    unknown = True
+    walk(loop.body, {})
+    shape = [(k, f_, n) for k, f_, n, _ in items]
+    want = [("len", fmt, kn), ("raw", None, kn), ("len", fmt, vn), ("raw", None, vn)]
+    if unknown or not items:
+        ctx.note(f"box/length-prefix-width: the items emitted per pair were not all recognised ({[i[:3] for i in items if i[0] == '?'][:2]}); clause left to box/wire-form (bounded)")
+    else:
+        ctx.check(shape == want, "box/length-prefix-width", q + " | <items written per pair>",
+                  f"per (key, value) pair the writer emits {shape!r}; the reader (Int16StringReceiver, format {fmt!r}) needs len16(key), key, len16(value), value in this order")
+    # guards dominating the writes of the raw key / value
+    for what, nm, limit in (("key", kn, consts.get("MAX_KEY_LENGTH")), ("value", vn, consts.get("MAX_VALUE_LENGTH"))):
+        raw = [w_ for k, _, n, w_ in items if k == "raw" and n == nm]
+        if not raw or unknown or not isinstance(limit, int):
+            ctx.note(f"box/guards-dominate-writes: the write of the {what} was not recognised; clause left to box/{what}-length-upper-bound (bounded)")
+            continue
+        term = f"len({nm})"
+        exp = lin_expect({term: -1}, -limit)
+        for st in raw:
+            for n in g.ids_of(st):
+                forms = [lincmp(expand(g.node(t).ast, defs), consts, negate=(lab == "F")) for t, lab in g.edge_guards(n)]
+                on = [fm for fm in forms if fm is not None and {k for k, _ in fm[0]} == {term} and dict(fm[0])[term] < 0]
+                if exp in on:
+                    ctx.ok("box/guards-dominate-writes", q + f" | <{what} written only when len <= {limit}>", fmt_lin(exp))
+                elif on:
+                    ctx.violation("box/guards-dominate-writes", q + f" | <{what} written only when len <= {limit}>",
+                                  f"the {what} is written under the guard `{fmt_lin(on[0])}`; the format carries {what}s of up to exactly {limit} bytes (`{fmt_lin(exp)}`)")
+                else:
+                    ctx.note(f"box/guards-dominate-writes: no dominating length test on the {what} recognised; clause left to box/{what}-length-upper-bound (bounded)")
+                break
+
+
+def _struct_reader(ctx, mod, consts):
+    from sa.astx import statements
+    from sa.props._lib_d import Inliner
+    from sa.props._lib_g import expand, is_self_attr, single_defs
+    inl = Inliner(mod, ["BinaryBoxProtocol"], ["proto_init", "proto_key", "proto_value", "dataReceived", "connectionLost", "sendBox", "lengthLimitExceeded", "makeConnection"])
+    q = QA + ".BinaryBoxProtocol"
+    for meth, want_state, limit_attr, why in (("proto_key", "value", "_MAX_VALUE_LENGTH", "after a key the limit must be raised to the value limit (values up to 65535 bytes are legal)"),
+                                               ("proto_value", "key", "_MAX_KEY_LENGTH", "after a value the limit must drop back to the key limit (else over-long keys are accepted)")):
+        f = inl.view(ctx.func(AMP, f"BinaryBoxProtocol.{meth}"))
+        g = ctx.cfg(f)
+        defs = single_defs(f)
+        rets = g.ids(lambda n: n.kind == "stmt" and isinstance(n.ast, ast.Return) and n.ast.value is not None and isinstance(expand(n.ast.value, defs), ast.Constant)
+                     and expand(n.ast.value, defs).value == want_state)
+        sets = g.ids(lambda n: n.kind == "stmt" and isinstance(n.ast, ast.Assign) and any(is_self_attr(t, "MAX_LENGTH") for t in n.ast.targets))
+        good = [n for n in sets if is_self_attr(expand(g.node(n).ast.value, defs), limit_attr)]
+        if not rets:
+            ctx.note(f"reader/limit-toggle: no `return {want_state!r}` recognised in {meth}; clause left to reader/limits (bounded)")
+            continue
+        for r in rets:
+            wit = g.must_precede(good, [r]) if good else [g.entry]
+            # the last assignment of MAX_LENGTH before the return must be the right one: no other assignment between it and the return
+            wrong = [n for n in sets if n not in good and g.path([n], [r], avoid=good, edge_ok=lambda a, b, l: l != "exc")]
+            ctx.check(bool(good) and wit is None and not wrong, "reader/limit-toggle", f"{q}.{meth} | <state {want_state!r} entered>",
+                      f"{meth} can switch to state {want_state!r} without self.MAX_LENGTH = self.{limit_attr}: {why}", witness=g.describe(wit) if good and wit else "")
+
+
+def _struct_framing(ctx, consts):
+    """The three comparisons that decide how IntNStringReceiver.dataReceived cuts the stream are in exact normal form
+    (either polarity: `while a >= b` and `if a < b: break` are the same boundary)."""
+    from sa.astx import call_name, lincmp, statements
+    from sa.props._lib_g import expand, fmt_lin, lin_expect, single_defs
+    f = ctx.func(BASIC, "IntNStringReceiver.dataReceived")
+    q = QB + ".IntNStringReceiver.dataReceived"
+    defs = single_defs(f)
+    ups = [st for st in statements(f) if isinstance(st, ast.Assign) and isinstance(st.value, ast.Call) and call_name(st.value) in ("unpack", "struct.unpack")
+           and isinstance(st.targets[0], (ast.Tuple, ast.List)) and len(st.targets[0].elts) == 1 and isinstance(st.targets[0].elts[0], ast.Name)]
+    if len(ups) != 1:
+        ctx.note("framing/boundary-normal-form: `(length,) = unpack(fmt, buffer[a:b])` not recognised; clause left to reader/split-invariance and the included C16 rule (bounded)")
+        return
+    ln = ups[0].targets[0].elts[0].id
+    sl = ups[0].value.args[1] if len(ups[0].value.args) == 2 else None
+    if not (isinstance(sl, ast.Subscript) and isinstance(sl.slice, ast.Slice) and isinstance(sl.value, ast.Name) and isinstance(sl.slice.lower, ast.Name)):
+        ctx.note("framing/boundary-normal-form: prefix slice not recognised; clause left to reader/split-invariance (bounded)")
+        return
+    buf, off = sl.value.id, sl.slice.lower.id
+    L, PL, MX = f"len({buf})", "self.prefixLength", "self.MAX_LENGTH"
+    families = {
+        "prefix available": (frozenset({L, off, PL}), lin_expect({L: 1, off: -1, PL: -1}, 0), "a whole length prefix is buffered"),
+        "message complete": (frozenset({L, off, PL, ln}), lin_expect({L: 1, off: -1, PL: -1, ln: -1}, 0), "the whole string is buffered"),
+        "length limit": (frozenset({ln, MX}), lin_expect({ln: 1, MX: -1}, 1), "the announced length exceeds MAX_LENGTH"),
+    }
+    seen = {k: [] for k in families}
+    for t in ast.walk(f):
+        if isinstance(t, ast.Compare) and len(t.ops) == 1 and isinstance(t.ops[0], (ast.Lt, ast.LtE, ast.Gt, ast.GtE)):
+            fm = lincmp(expand(t, defs), consts)
+            if fm is None:
+                continue
+            terms = frozenset(k for k, _ in fm[0])
+            for name, (tset, _, _) in families.items():
+                if terms == tset:
+                    seen[name].append(fm)
+    for name, (tset, canon, meaning) in families.items():
+        if not seen[name]:
+            ctx.note(f"framing/boundary-normal-form: no comparison over {sorted(tset)} recognised ({name}); clause left to reader/split-invariance (bounded)")
+            continue
+        neg = (frozenset((k, -v) for k, v in canon[0]), 1 - canon[1])
+        for fm in seen[name]:
+            ctx.check(fm in (canon, neg), "framing/boundary-normal-form", q + f" | <{name}>",
+                      f"the receiver decides `{name}` with `{fmt_lin(fm)}`; the boundary must be exactly `{fmt_lin(canon)}` ({meaning}) or its negation `{fmt_lin(neg)}`: "
+                      "one byte off delays the last string of a segment or unpacks a partial prefix / refuses a string of exactly MAX_LENGTH bytes")
+    # the slices are contiguous: prefix = buffer[off : off+PL], payload = buffer[off+PL : off+PL+length]
+    from sa.props._lib_g import lin_equal
+    start = ast.parse(f"{off} + {PL}", mode="eval").body
+    end = ast.parse(f"{off} + {PL} + {ln}", mode="eval").body
+    ctx.check(sl.slice.upper is not None and lin_equal(sl.slice.upper, start, defs), "framing/slices-contiguous", q + " | <prefix slice>",
+              f"the length prefix is read from {buf}[{off}:{src(sl.slice.upper) if sl.slice.upper else ''}]; it must be exactly prefixLength bytes at the offset")
+    pays = [st for st in statements(f) if isinstance(st, ast.Assign) and isinstance(st.value, ast.Subscript) and isinstance(st.value.slice, ast.Slice) and src(st.value.value) == buf
+            and st.value.slice.lower is not None and st.value.slice.upper is not None and isinstance(st.targets[0], ast.Name)
+            and any(isinstance(c, ast.Call) and call_name(c) == "self.stringReceived" and [src(a) for a in c.args] == [st.targets[0].id] for c in ast.walk(f))]
+    if len(pays) == 1:
+        lo, hi = pays[0].value.slice.lower, pays[0].value.slice.upper
+        ctx.check(lin_equal(lo, start, defs) and lin_equal(hi, end, defs), "framing/slices-contiguous", q + " | <payload slice>",
+                  f"the delivered string is {buf}[{src(expand(lo, defs))}:{src(expand(hi, defs))}]; it must start right after the prefix and be `{ln}` bytes long")
+    else:
+        ctx.note("framing/slices-contiguous: the payload slice handed to stringReceived was not recognised; clause left to reader/split-invariance (bounded)")
+
+
+def _struct_codec_tables(ctx, mod, consts):
+    """Writer table vs reader table of two codecs whose two halves must agree on a layout."""
+    from sa.astx import call_name, statements
+    from sa.props._lib_g import class_const as _cc
+    classes = {n.name: n for n in mod.tree.body if isinstance(n, ast.ClassDef)}
+    # ListOf: the length prefix written per element == the prefix the reader parses
+    lo = classes.get("ListOf")
+    if lo is not None and "toString" in methods(lo) and "fromString" in methods(lo):
+        ts, fs = methods(lo)["toString"], methods(lo)["fromString"]
+        wf = sorted({c.args[0].value for c in ast.walk(ts) if isinstance(c, ast.Call) and call_name(c) in ("pack", "struct.pack") and c.args and isinstance(c.args[0], ast.Constant)})
+        rf = sorted({c.args[0].value for c in ast.walk(fs) if isinstance(c, ast.Call) and call_name(c) in ("unpack", "struct.unpack") and c.args and isinstance(c.args[0], ast.Constant)})
+        for c in ast.walk(fs):
+            if isinstance(c, ast.Call) and isinstance(c.func, ast.Name) and c.func.id.endswith("StringReceiver"):
+                pc = ctx.mod(BASIC).find(c.func.id)
+                v = _cc(ctx.mod(BASIC), pc, "structFormat", {}) if isinstance(pc, ast.ClassDef) else None
+                if isinstance(v, str):
+                    rf = sorted(set(rf) | {v})
+        if wf and rf:
+            ctx.check(wf == rf, "argument/list-prefix-table", QA + ".ListOf | <element length prefix>", f"ListOf.toString packs element lengths with {wf}, ListOf.fromString reads them with {rf}")
+        else:
+            ctx.note("argument/list-prefix-table: pack/unpack formats of ListOf not recognised; clause left to argument/list-round-trip (bounded)")
+    # DateTime: the %-format written vs the slice table read
+    dt = classes.get("DateTime")
+    if dt is None or "toString" not in methods(dt):
+        return
+    ts = methods(dt)["toString"]
+    fmts = [n for n in ast.walk(ts) if isinstance(n, ast.BinOp) and isinstance(n.op, ast.Mod) and isinstance(n.left, ast.Constant) and isinstance(n.left.value, str)]
+    pos_expr = class_assigns(dt).get("_positions")
+    fields = _parse_percent(fmts[0].left.value) if len(fmts) == 1 else None
+    if fields is None or not isinstance(pos_expr, (ast.List, ast.Tuple)) or not all(isinstance(e, ast.Call) and call_name(e) == "slice" and len(e.args) == 2 and
+                                                                                     all(isinstance(a, ast.Constant) for a in e.args) for e in pos_expr.elts):
+        ctx.note("datetime/layout-table: the %-format of toString or the _positions slice table was not recognised; clause left to datetime/round-trip (bounded)")
+        return
+    want = [(f_[1], f_[2]) for f_ in fields if f_[0] == "int"]
+    got = [(e.args[0].value, e.args[1].value) for e in pos_expr.elts]
+    names = ["year", "month", "day", "hour", "minute", "second", "microsecond", "tz hours", "tz minutes"]
+    ctx.check(len(want) == len(got), "datetime/layout-table", QA + ".DateTime._positions | <count>", f"{len(got)} slices for {len(want)} integer fields of the format string")
+    for i in range(min(len(want), len(got))):
+        ctx.check(want[i] == got[i], "datetime/layout-table", QA + f".DateTime._positions | {names[i] if i < len(names) else i}",
+                  f"the writer puts {names[i] if i < len(names) else i} at characters {want[i][0]}..{want[i][1]}, the reader's table says slice{got[i]}")
+    total = fields[-1][2]
+    fsn = methods(dt).get("fromString")
+    if fsn is not None:
+        lens = [c for c in ast.walk(fsn) if isinstance(c, ast.Compare) and isinstance(c.left, ast.Call) and call_name(c.left) == "len" and len(c.ops) == 1 and isinstance(c.comparators[0], ast.Constant)]
+        if len(lens) == 1:
+            ctx.check(lens[0].comparators[0].value == total, "datetime/layout-table", QA + ".DateTime.fromString | <length check>",
+                      f"the writer produces {total} characters; the reader checks `{src(lens[0])}`")
+        signs = [f_ for f_ in fields if f_[0] == "str"]
+        p_ = fsn.args.args[1].arg
+        idx = [n for n in ast.walk(fsn) if isinstance(n, ast.Subscript) and isinstance(n.value, ast.Name) and n.value.id == p_ and isinstance(n.slice, ast.Constant) and isinstance(n.slice.value, int)]
+        if len(signs) == 1 and len(idx) == 1:
+            ctx.check(idx[0].slice.value == signs[0][1], "datetime/layout-table", QA + ".DateTime.fromString | <sign index>",
+                      f"the writer puts the sign at character {signs[0][1]}; the reader reads {src(idx[0])}")
+
+
+def _parse_percent(fmt: str):
+    """[(kind, start, end)] for a %-format made of %0Ni / %0Nd (fixed width N), %s (one char) and literals; None otherwise."""
+    out, pos, i = [], 0, 0
+    while i < len(fmt):
+        ch = fmt[i]
+        if ch != "%":
+            out.append(("lit", pos, pos + 1))
+            pos += 1
+            i += 1
+            continue
+        j = i + 1
+        num = ""
+        while j < len(fmt) and fmt[j].isdigit():
+            num += fmt[j]
+            j += 1
+        if j >= len(fmt):
+            return None
+        if fmt[j] in "id" and num.startswith("0") and len(num) >= 2:
+            out.append(("int", pos, pos + int(num[1:])))
+            pos += int(num[1:])
+        elif fmt[j] == "s" and not num:
+            out.append(("str", pos, pos + 1))
+            pos += 1
+        else:
+            return None
+        i = j + 1
+    return out
+
+
 def check(ctx):
     mod = ctx.mod(AMP)
     ctx.mod(BASIC)
     consts = module_consts(mod)
+    with ctx.section("structural: serialize"):
+        _struct_serialize(ctx, mod, consts)
+    with ctx.section("structural: reader limits"):
+        _struct_reader(ctx, mod, consts)
+    with ctx.section("structural: framing boundaries"):
+        _struct_framing(ctx, consts)
+    with ctx.section("structural: codec tables"):
+        _struct_codec_tables(ctx, mod, consts)
     with ctx.section("AmpBox.serialize"):
         check_writer(ctx, mod, consts)
     with ctx.section("limits"):
